@@ -257,7 +257,13 @@ def check_property(pid, tier, seed):
             print(f"CHECKER-FAULT obligations of the baseline are no longer generated: {missing[:5]} ...")
             return 3
     if undecided:
-        # undecided is never a violation; the bounded stand-ins above found nothing
+        # undecided is never a violation.  A function that the generator can no longer process (it is under a discharged contract on
+        # the unchanged tree, so this only happens after a code change) leaves its obligations without a verdict: exit status 2,
+        # no VIOLATION line.  Solver timeouts with clean bounded stand-ins keep exit status 0.
+        out_of_reach = [rep.qual for rep in run.fn_reports if rep.error]
+        if out_of_reach:
+            print(f"NO-VERDICT property={pid} functions outside the verifier's subset after a code change: {', '.join(short_q(q) for q in out_of_reach)}")
+            return 2
         return 0 if bounded else 2
     return 0
 
